@@ -70,7 +70,7 @@ def size : XExpr → Nat
   | .binary _ x y => size x + size y + 1
   | .unary _ x => size x + 1
   | .star x => size x + 1
-  | .paren x => size x + 1
+  | .paren x => if isParenNode x then size x else size x + 1   -- `((x))` is printed as `(x)`
   | .selector x _ => size x + 1
   | .index x i => size x + size i + 1
   | .call f args _ _ => size f + sizeL args + 1
